@@ -70,7 +70,10 @@ def put_panic_handled():
 
 PPGET = [b'none', b'absent', b'err', b'garbage', b'truncated', b'empty', b'panic']
 PPPUT = [b'none', b'err', b'ro', b'panic']
-GET = [b'none', b'miss', b'err', b'timeout', b'garbage', b'truncated', b'badobj', b'noobj', b'panic']
+GET = [b'none', b'miss', b'err', b'timeout', b'garbage', b'truncated', b'badobj', b'noobj', b'panic',
+       # faults DURING the request: a genuine hit, then the entry file is damaged before it is read
+       b'hit_trunc', b'hit_overwrite', b'hit_unlink']
+DURING = (b'hit_trunc', b'hit_overwrite', b'hit_unlink')
 PUT = [b'none', b'err', b'toolarge', b'ro'] + ([b'panic'] if put_panic_handled() else [])
 CCS = [b'default', b'recache', b'nocache']
 CLASSES = [b'compile', b'unsupported', b'vanished', b'notcompile', b'cannotcache', b'cannotcache2', b'noargs']
@@ -184,7 +187,8 @@ def gen_table(tier, force_level=None):
                     # the output directory is missing (not a storage fault): vary the lookup outcome only
                     if cc == b'default':
                         for g in GET:
-                            out.append([ppmode, orcs, prefix + [req(cc=cc, ok=0, f=F(get=g))] + suffix])
+                            if g not in DURING:
+                                out.append([ppmode, orcs, prefix + [req(cc=cc, ok=0, f=F(get=g))] + suffix])
     # executed, found not cacheable only when the compile command is generated (MSVC, shared program database)
     for ppmode in (1, 0):
         for cc in CCS:
@@ -236,7 +240,7 @@ def gen_histories(rng, n, maxlen, par_weight=2, zero_weight=1):
                 cls = b'compile' if rng.chance(5, 6) else rng.choice(CLASSES[1:] + [b'msvc_nc', b'msvc_nc'])
                 cc = rng.weighted([(b'default', 7), (b'recache', 2), (b'nocache', 2)])
                 f = rand_faults(rng) if rng.chance(1, 2) else list(NOF)
-                ok = 0 if rng.chance(1, 25) else 1
+                ok = 0 if (rng.chance(1, 25) and f[3] not in DURING) else 1
                 steps.append(req(t, cls, cc, ok, f))
                 if cls == b'compile':
                     seen.add(t)
@@ -387,6 +391,17 @@ def gen_midzero(rng, n):
     return out
 
 
+def with_tails(cases):
+    """Append, to every fourth history, two fault-free repeats per translation unit (same server): whatever happened
+    before, the first must be answered with the compiler's result and re-populate, the second must hit."""
+    out = []
+    for i, c in enumerate(cases):
+        if i % 4 == 0:
+            c = [c[0], c[1], c[2] + [req(t) for t in range(NTU) for _ in (0, 1)]]
+        out.append(c)
+    return out
+
+
 # ---------------------------------------------------------------- the specification, evaluated on the real output
 
 def tu_obj(t):
@@ -477,7 +492,10 @@ def monitor(case, out):
         return []
     if isinstance(out, list) and len(out) == 2 and out[0] == b'unparsable':
         if out[1].startswith(b'(harness_died'):
-            return []          # a later case of a shard whose process died: the culprit is reported, not these
+            # the process serving this shard was killed (a signal such as SIGBUS, an abort): the first history reported
+            # this way — the smallest case index — is the one that killed it, the later ones were never run
+            return ['the process serving this history was killed (or had been killed by an earlier history of the same shard): %s'
+                    % out[1][:60].decode('utf-8', 'replace')]
         return ['the process serving this history died instead of answering: %s' % out[1][:200].decode('utf-8', 'replace')]
     if not isinstance(out, list) or len(out) != len(steps) or (out and out[0] == b'harness_error'):
         return ['malformed implementation output: %r' % (out[:2] if isinstance(out, list) else out)]
@@ -633,6 +651,9 @@ def shrink(case):
 
 def neighbours(case):
     ppmode, orcs, steps = case
+    # the same history followed by two fault-free repeats per unit: must re-populate and hit
+    yield [ppmode, orcs, steps + [req(t) for t in range(NTU) for _ in (0, 1)]]
+    yield [ppmode, [ORC_OK] * NTU, steps + [req(t) for t in range(NTU) for _ in (0, 1)]]
     for i, st in enumerate(steps):
         if st[0] != b'req':
             continue
@@ -658,9 +679,9 @@ def legs(tier):
     def gen(rng, tier):
         if tier == 'thorough':
             return (gen_table(tier) + gen_flips(tier) + gen_pokes(tier) + gen_forge(tier) + gen_first_touch(tier)
-                    + gen_histories(rng, 20000, 16) + gen_midzero(rng, 2000))
+                    + with_tails(gen_histories(rng, 20000, 16)) + gen_midzero(rng, 2000))
         return (gen_table(tier) + gen_flips(tier) + gen_pokes(tier) + gen_forge(tier) + gen_first_touch(tier)
-                + gen_histories(rng, 2500, 14) + gen_midzero(rng, 150))
+                + with_tails(gen_histories(rng, 2500, 14)) + gen_midzero(rng, 150))
     return [Leg('reqsm', gen, monitor=monitor, compare=compare, nontrivial=nontrivial, shrink=shrink, neighbours=neighbours, stats=stats,
                 rule='single-request table: every reachable cache state (empty, warm, entry garbage/truncated/deleted/damaged in '
                      'place inside a member, cache directory unusable at first use and repaired, '
